@@ -1,5 +1,6 @@
 import DspVerif.Props.C16
 import DspVerif.Gen.StepsMedian
+import DspVerif.Gen.CtorMedian
 import DspVerif.Lib.RealFn
 import DspVerif.Lib.GenBridge
 /-!
@@ -394,4 +395,73 @@ example : (genMedianRun 3 (genMedianInit 3 0) [5, 1, 4]).2.map some =
   simp [C16.window, List.range_succ]
 
 end
+/-! BEGIN steps3 constructors -/
+/-! ## Constructor `MedianFilter::MedianFilter(int n, real_t init_value)` (regenerated: `Gen/CtorMedian.lean`)
+
+`Gen.medianCtor` is the constructor as lib/medfilt.cpp has it now: `_d`, `_s` default-constructed (empty), `_i{0}`, `_n{n}`, the
+order guard `n < 3`, then `_d = zeros(_n)`, `_s = zeros(_n)` and the two `std::fill(…, init_value)`.  It accepts exactly the orders
+`MF.init` accepts and leaves `genMedianInit` — the state T16.3 was transported from. -/
+
+noncomputable section
+
+/-- members of a constructed `MedianFilter` that the generated loop body writes / reads -/
+def medObjS (o : Gen.MedianFilterObj ℝ) : Gen.MedianFilterStepState ℝ := ⟨o.d, o.s, o.i⟩
+def medObjP (o : Gen.MedianFilterObj ℝ) : Gen.MedianFilterStepParams ℝ := ⟨o.n⟩
+
+/-- **bridge, constructor:** the generated constructor, for EVERY `int` order and initial value: rejected exactly for `n < 3`, else the
+object `(_d = _s = init_value^n, _i = 0, _n = n)` -/
+theorem medianCtor_eq (n : Int) (v : ℝ) :
+    Gen.medianCtor n v =
+      if n < 3 then .error "The filter order must be greater than or equal to 3"
+      else .ok { d := Array.replicate n.toNat v, s := Array.replicate n.toNat v, i := 0, n := n } := by
+  unfold Gen.medianCtor
+  by_cases h : n < 3
+  · simp [h]
+  · simp [h, Gen.arrNew, Gen.arrFill]
+
+/-- … which is the model's constructor `MF.init` (same acceptance, same message, same state) -/
+theorem medianCtor_init (n : Int) (v : ℝ) :
+    (Gen.medianCtor n v).map (fun o => toMF o.n.toNat (medObjS o)) = MF.init n v := by
+  rw [medianCtor_eq]
+  unfold MF.init
+  by_cases h : n < 3
+  · simp [h, Except.map]
+  · simp [h, Except.map, toMF, medObjS]
+
+theorem medianCtor_ok {n : Int} {v : ℝ} {o : Gen.MedianFilterObj ℝ} (h : Gen.medianCtor n v = .ok o) :
+    3 ≤ n ∧ medObjS o = genMedianInit n.toNat v ∧ medObjP o = ⟨((n.toNat : ℕ) : Int)⟩ := by
+  rw [medianCtor_eq] at h
+  by_cases hn : n < 3
+  · rw [if_pos hn] at h; cases h
+  · rw [if_neg hn] at h
+    injection h with h
+    subst h
+    refine ⟨by omega, rfl, ?_⟩
+    simp only [medObjP]
+    congr 1
+    omega
+
+/-- **T16.3 from the GENERATED constructor through the GENERATED loop.**  Whatever order and initial value the regenerated
+constructor accepts (exactly `n ≥ 3`), the regenerated loop body run from the object it leaves outputs for sample `k` the median of
+the last `n` samples of `v^n ++ xs` up to and including sample `k`. -/
+theorem gen_medianFilter_from_ctor (n : Int) (v : ℝ) (o : Gen.MedianFilterObj ℝ) (h : Gen.medianCtor n v = .ok o) (xs : List ℝ) :
+    3 ≤ n ∧ medObjP o = ⟨((n.toNat : ℕ) : Int)⟩ ∧
+    (genMedianRun n.toNat (medObjS o) xs).2.map some =
+      (List.range xs.length).map (fun k => median avg2 (C16.window (List.replicate n.toNat v) xs k)) := by
+  obtain ⟨h1, h2, h3⟩ := medianCtor_ok h
+  refine ⟨h1, h3, ?_⟩
+  rw [h2]
+  exact gen_medianFilter_spec n.toNat (by omega) v xs
+
+/-- the default arguments `MedianFilter(int n = 3, real_t init_value = 0)` -/
+theorem ctor_defaults : (Gen.medianCtorDefault_n, (Gen.medianCtorDefault_init_value : ℝ)) = (3, 0) := by
+  simp [Gen.medianCtorDefault_n, Gen.medianCtorDefault_init_value]
+
+/-- non-vacuity: `MedianFilter(3, 0)` is accepted, `MedianFilter(2, 0)` is rejected -/
+example : ∃ o, Gen.medianCtor (3 : Int) (0 : ℝ) = .ok o := by rw [medianCtor_eq, if_neg (by norm_num)]; exact ⟨_, rfl⟩
+example : ∃ e, Gen.medianCtor (2 : Int) (0 : ℝ) = .error e := by rw [medianCtor_eq, if_pos (by norm_num)]; exact ⟨_, rfl⟩
+
+end
+/-! END steps3 constructors -/
+
 end Dsp.C16Gen
